@@ -136,7 +136,10 @@ class RSAKey(PKey):
         return m
 
     def verify_ssh_sig(self, data, msg):
-        sig_algorithm = msg.get_text()
+        try:
+            sig_algorithm = msg.get_text()
+        except UnicodeDecodeError:
+            return False
         if sig_algorithm not in self.HASHES:
             return False
         key = self.key
